@@ -61,7 +61,8 @@ def report(ctx, kind, signature, detail, failing_input=None, property_fails=None
     counts = ctx.extra.setdefault('reports', {})
     key = '%s:%s' % (kind, signature)
     counts[key] = counts.get(key, 0) + 1
-    if counts[key] <= cap:
+    # recorded findings are never capped (they occupy no break slot; a failing set needs every hit)
+    if counts[key] <= cap or ctx.is_known(signature, common.input_key(failing_input)):
         ctx.report(kind, signature, detail, failing_input=failing_input, property_fails=property_fails)
 
 
